@@ -19,7 +19,7 @@ pub const I: ChalkIr = ChalkIr;
 
 /// default deterministic work budget per solve (units: SLG root-loop iterations + table creations,
 /// recursive `solve_goal` entries, goal-node folds)
-pub const DEFAULT_BUDGET: u64 = 20_000;
+pub const DEFAULT_BUDGET: u64 = 300_000;
 
 pub fn work_bucket(w: u64) -> &'static str {
     match w {
@@ -28,7 +28,8 @@ pub fn work_bucket(w: u64) -> &'static str {
         100..=999 => "<1000",
         1000..=9999 => "<10000",
         10000..=99999 => "<100000",
-        _ => ">=100000",
+        100000..=999999 => "<1000000",
+        _ => ">=1000000",
     }
 }
 
